@@ -40,6 +40,20 @@ CLAIMED = {
                             "covered (the property does not ask for them)."),
         technique="Lean 4 kernel-decided table certificates (decide +kernel) + proofs over traced geometry + numeric oracle",
         design="5/C08"),
+    "C09": dict(
+        text=("Exhaustive over all 127 non-empty subsets of the 7-position core (as the property states) plus sampled "
+              "19/37-position cores, each with a random assignment of 1-3 assembly types (different ring counts, double "
+              "ducts, assemblies without pins): the tables the real Core.load builds are dumped and the Lean kernel decides "
+              "that every gap cell borders one to three assemblies, the cells around an assembly are pairwise distinct and "
+              "the per-side counts add up, gap adjacency is symmetric with two or three neighbours per cell, and both "
+              "neighbours of a shared side list the same cells in opposite order with the finer of the two meshes.  "
+              "Perimeter coverage, independence of the total gap area from the assemblies' meshes and the area-proportional "
+              "flow split are checked numerically on the real arrays."),
+        note=COMMON_NOTE + ("T2 table dump per layout (encoder round-trip tested), certificates split over 16 generated "
+                            "modules so that the kernel evaluations run in parallel.  Areas, wetted lengths and centroid "
+                            "distances are not modelled in Lean."),
+        technique="Lean 4 kernel-decided table certificates (decide +kernel) per core layout + numeric oracle",
+        design="5/C09"),
     "C10": dict(
         text=("Lean theorems, over any ordered field and for all monotone boundary lists of any length, about the model "
               "of the overlap map: every weight is non-negative; for each region cell the row-normalised weights over "
